@@ -172,6 +172,13 @@ Definition decode_prop (insts : list sinst) (d : list (bytes * bytes)) (tag : by
 
 Record sfile := mkSF { sf_insts : list sinst; sf_dict : list (bytes * bytes) }.
 
+(* number of nodes of a forest: twice that is enough fuel for [items] *)
+Fixpoint nsize (n : node) : nat :=
+  match n with
+  | NText _ => 1%nat
+  | NElem _ _ ks => S ((fix go (l : list node) : nat := match l with [] => O | k :: r => (nsize k + go r)%nat end) ks)
+  end.
+
 (* ## File Structure, ## roblox, ## Item, ## Properties, ## SharedStrings *)
 Definition xspec_decode (doc : list node) : res sfile :=
   match elems doc with
@@ -183,7 +190,7 @@ Definition xspec_decode (doc : list node) : res sfile :=
           if negb (ws_only ks) then Err SE_CHILD else
           if negb (forallb (fun k => name_is "Meta" k || name_is "External" k || name_is "Item" k || name_is "SharedStrings" k) (elems ks))
           then Err SE_CHILD else
-          '(insts, _) <- items (S (length ks) + 400) 0 1 ks ;;
+          '(insts, _) <- items (2 * nsize (NElem n a ks) + 4) 0 1 ks ;;
           if negb (nodup_referents insts) then Err SE_ITEM else
           d <- match filter (name_is "SharedStrings") ks with
                | [] => Ok []
